@@ -251,7 +251,7 @@ func genC04Float(dir, tier string, r *rand.Rand) {
 		n = 8000
 	}
 	cw := newCaseWriter(dir, "C04_float", opHeader("CheckC04F"), opFooter,
-		"seeded random float32 data that is not integer valued (magnitudes 1e-3..1e3, mixed signs): MatMul (2-D, M,K,N in 1..4), Gemm (4 transpose combinations, alpha/beta absent or random, C absent / scalar / (N) / (1,N) / (M,1) / (M,N)), LinearRegressor (1..3 targets x 1..4 features, intercepts given / one / absent), Scaler (offset and scale per feature or one for all; one case in three with x within a few units of an offset of magnitude 1e5..2e9, where an algebraically equal but numerically different formula cancels): every output element must lie in the rounding-aware enclosure of the ONNX formula", false, 60)
+		"seeded random float32 (one iteration in four: float64, which must be computed correctly or refused; attributes stay float32 values) data that is not integer valued (magnitudes 1e-3..1e3, mixed signs): MatMul (2-D, M,K,N in 1..4), Gemm (4 transpose combinations, alpha/beta absent or random, C absent / scalar / (N) / (1,N) / (M,1) / (M,N)), LinearRegressor (1..3 targets x 1..4 features, intercepts given / one / absent), Scaler (offset and scale per feature or one for all; one case in three with x within a few units of an offset of magnitude 1e5..2e9, where an algebraically equal but numerically different formula cancels): every output element must lie in the rounding-aware enclosure of the ONNX formula", false, 60)
 	ext := func() int { return 1 + r.Intn(4) }
 	mag := func() float64 { return []float64{1e-3, 0.1, 1, 1, 7, 1e3}[r.Intn(6)] }
 	fvals := func(k int, m float64) []float32 {
@@ -262,9 +262,10 @@ func genC04Float(dir, tier string, r *rand.Rand) {
 		return v
 	}
 	for c := 0; c < n; c++ {
+		f64 := c%4 == 3 // one iteration in four: float64 tensors (computed correctly or refused)
 		// MatMul
 		M, K, N := ext(), ext(), ext()
-		a, b := randT(r, false, mag(), M, K), randT(r, false, mag(), K, N)
+		a, b := randT(r, f64, mag(), M, K), randT(r, f64, mag(), K, N)
 		emitOp(cw, "MatMul", nil, func() []tensor.Tensor { return cloneAll([]tensor.Tensor{a, b}) })
 		// Gemm
 		tA, tB := r.Intn(2), r.Intn(2)
@@ -288,20 +289,20 @@ func genC04Float(dir, tier string, r *rand.Rand) {
 		if r.Intn(2) == 0 {
 			attrs = append(attrs, aFloat("beta", fvals(1, 3)[0]))
 		}
-		ga, gb := randT(r, false, mag(), sa...), randT(r, false, mag(), sb...)
+		ga, gb := randT(r, f64, mag(), sa...), randT(r, f64, mag(), sb...)
 		gin := []tensor.Tensor{ga, gb}
 		switch r.Intn(6) {
 		case 0:
 		case 1:
-			gin = append(gin, randT(r, false, mag(), N))
+			gin = append(gin, randT(r, f64, mag(), N))
 		case 2:
-			gin = append(gin, randT(r, false, mag(), 1, N))
+			gin = append(gin, randT(r, f64, mag(), 1, N))
 		case 3:
-			gin = append(gin, randT(r, false, mag(), M, 1))
+			gin = append(gin, randT(r, f64, mag(), M, 1))
 		case 4:
-			gin = append(gin, randT(r, false, mag(), M, N))
+			gin = append(gin, randT(r, f64, mag(), M, N))
 		default:
-			gin = append(gin, randT(r, false, mag(), 1))
+			gin = append(gin, randT(r, f64, mag(), 1))
 		}
 		emitOp(cw, "Gemm", attrs, func() []tensor.Tensor { return cloneAll(gin) })
 		// LinearRegressor
@@ -315,7 +316,7 @@ func genC04Float(dir, tier string, r *rand.Rand) {
 				la = append(la, aFloats("intercepts", fvals(1, mag())))
 			}
 		}
-		lx := randT(r, false, mag(), Nn, F)
+		lx := randT(r, f64, mag(), Nn, F)
 		emitOp(cw, "LinearRegressor", la, func() []tensor.Tensor { return cloneAll([]tensor.Tensor{lx}) })
 		// Scaler
 		lo, ls := F, F
@@ -326,8 +327,8 @@ func genC04Float(dir, tier string, r *rand.Rand) {
 			ls = 1
 		}
 		off, scl := fvals(lo, mag()), fvals(ls, 2)
-		sx := randT(r, false, mag(), Nn, F)
-		if c%3 == 0 {
+		sx := randT(r, f64, mag(), Nn, F)
+		if c%3 == 0 && !f64 {
 			// a standardised feature with a large mean: x within a few units of the offset
 			big := []float32{1e7, 101325, 1.7e9, 123456.7, 3e5}
 			d := sx.Data().([]float32)
